@@ -167,6 +167,7 @@ fn main() {
             let (rep, detail) = match args[1].as_str() {
                 "C08-D4" => c08::finding_d4(&rt),
                 "C05-D8" => c05::finding_d8(&rt),
+                "C05-D15" => c05::finding_d15(&rt),
                 other => (false, format!("unknown finding {other}")),
             };
             println!("{}", J::obj(vec![("reproduces", J::Bool(rep)), ("detail", J::s(&detail))]).render());
